@@ -845,11 +845,6 @@ def api_walk(kind, ent):
     return out
 
 
-def side_state(kind, ent):
-    """everything observable of one side: HDF5-level dump + API-level walk"""
-    return {"h5": h5dump(h5obj(ent))[0], "api": api_walk(kind, ent)}
-
-
 # ---- building content -------------------------------------------------------------------------------
 
 DEFS = [None, "a definition", "é ü", ""]
@@ -994,6 +989,10 @@ def populate(f, rng, tag):
             tw = b.create_tag(name="tag0-twin", copy_from=tags[0])
             tw.definition = "twin of tag0"
             tw.position = [4.0, 5.0]
+    if rng.random() < 0.5:
+        tw = f.create_block(name=blocks[0].name + "-twin", copy_from=blocks[0])     # a block holding same-name same-id members
+        tw.definition = "twin of %s" % blocks[0].name
+        tw.data_arrays["sig"].label = "relabelled in the twin block"
     if len(secs) > 1 and rng.random() < 0.8:
         tw = secs[0].copy_section(secs[1])                          # a root section, again below another one
         tw.definition = "twin of %s, changed since" % secs[1].name
@@ -1206,6 +1205,123 @@ def link_membership(kind, ent):
     return out
 
 
+# ---- the links of an entity as the API hands them out ---------------------------------------------------
+#
+# "Links among the copied entities point to the copied, not the original": what a program sees of a link is the handle
+# the API builds for it (tag.references[i], multi_tag.positions, feature.data, group.data_arrays[i], x.sources[i],
+# x.metadata, section.link). The object such a handle stands for must be the object the HDF5 link leads to - for a copy:
+# one of the new objects -, and a change made THROUGH such a handle must stay on its side.
+
+
+def link_handles(kind, ent, limit=60):
+    """[(expression over `e`, handle)]: every entity the API hands out through a link at / below the entity `ent`"""
+    out = []
+
+    def add(label, thunk):
+        if len(out) >= limit:
+            return None
+        try:
+            h = thunk()
+        except Exception:
+            return None
+        if h is None or not hasattr(h, "_h5group"):
+            return None
+        out.append((label, h))
+        return h
+
+    def lst(label, owner, cname):
+        try:
+            cont = getattr(owner, cname)
+            n = len(cont)
+        except Exception:
+            return []
+        hs = []
+        for i in range(n):
+            h = add("%s.%s[%d]" % (label, cname, i), lambda i=i: cont[i])
+            if h is not None:
+                hs.append(("%s.%s[%d]" % (label, cname, i), h))
+        try:
+            for i, h in enumerate(cont):
+                if i == 0:
+                    add("next(iter(%s.%s))" % (label, cname), lambda h=h: h)
+                    add("%s.%s[<name>]" % (label, cname), lambda h=h: cont[h.name])
+        except Exception:
+            pass
+        return hs
+
+    def meta(label, e):
+        add(label + ".metadata", lambda: e.metadata)
+
+    def srcs(label, e):
+        for sl, s in lst(label, e, "sources"):
+            meta(sl, s)
+
+    def one(k, label, e):
+        if k in ("tag", "multi_tag"):
+            lst(label, e, "references")
+            try:
+                feats = list(e.features)
+            except Exception:
+                feats = []
+            for i, ft in enumerate(feats):
+                add("%s.features[%d].data" % (label, i), lambda ft=ft: ft.data)
+            if k == "multi_tag":
+                add(label + ".positions", lambda: e.positions)
+                add(label + ".extents", lambda: e.extents)
+            srcs(label, e)
+            meta(label, e)
+        elif k in ("data_array", "data_frame"):
+            if k == "data_array":
+                srcs(label, e)
+            meta(label, e)
+        elif k == "group":
+            for cname in BLOCK_LISTS:
+                lst(label, e, cname)
+            srcs(label, e)
+            meta(label, e)
+        elif k == "section":
+            add(label + ".link", lambda: e.link)
+        elif k == "block":
+            meta(label, e)
+            for cname, kk in (("groups", "group"), ("tags", "tag"), ("multi_tags", "multi_tag"),
+                              ("data_arrays", "data_array"), ("data_frames", "data_frame")):
+                try:
+                    items = list(getattr(e, cname))
+                except Exception:
+                    items = []
+                for i, x in enumerate(items):
+                    one(kk, "%s.%s[%d]" % (label, cname, i), x)
+
+    one(kind, "e", ent)
+    return out
+
+
+def _link_record(h):
+    rec = [type(h).__name__]
+    for a in ("name", "id", "type", "definition", "label", "unit", "repository"):
+        try:
+            rec.append(W.num(getattr(h, a)) if hasattr(h, a) else None)
+        except Exception as e:
+            rec.append("!" + type(e).__name__)
+    if isinstance(h, nixio.DataArray):
+        try:
+            rec.append(W.data_hash(np.asarray(h[:])) if h.size else "empty")
+        except Exception as e:
+            rec.append("!" + type(e).__name__)
+    return rec
+
+
+def link_view(kind, ent):
+    """what a program reads of the entities reached through the links of `ent` (name, id, type, definition, label, unit,
+    data): the walk records the links by name / id only"""
+    return [[lab] + _link_record(h) for lab, h in link_handles(kind, ent)]
+
+
+def side_state(kind, ent):
+    """everything observable of one side: HDF5-level dump + API-level walk + the entities read through its links"""
+    return {"h5": h5dump(h5obj(ent))[0], "api": api_walk(kind, ent), "links": link_view(kind, ent)}
+
+
 # ---- one copy trial ----------------------------------------------------------------------------------
 
 BLOCK_CREATE = {"data_array": "create_data_array", "data_frame": "create_data_frame", "tag": "create_tag",
@@ -1245,6 +1361,16 @@ def strip_root(nodes, ids_too):
             m["id"] = None if n["id"] is None else "<id>"
         out.append(m)
     return out
+
+
+def state_diff(before, after):
+    d = first_diff(before["h5"], after["h5"]) or W.diff(before["api"], after["api"], 3)
+    if d:
+        return d
+    for x, y in zip(before.get("links", []), after.get("links", [])):
+        if x != y:
+            return {"read through the link": x[0], "before": x[1:], "after": y[1:]}
+    return {"links": [len(before.get("links", [])), len(after.get("links", []))]}
 
 
 def first_diff(a, b):
@@ -1309,6 +1435,14 @@ def mutations(rng, kind, ent, blk, f, avoid=frozenset()):
         return lambda: setattr(o, a, v)
 
     val = "mut-%d" % rng.randrange(1000)
+    # changes made THROUGH the links of the entity, to what they hand out
+    lh = link_handles(kind, ent)
+    for lab, h in rng.sample(lh, min(len(lh), 4)):
+        add("through %s: definition" % lab, setter(h, "definition", "via-link-" + val))
+        if isinstance(h, nixio.DataArray):
+            add("through %s: label, unit" % lab, lambda h=h: (setattr(h, "label", "via-link-" + val), setattr(h, "unit", "kV")))
+            add("through %s: data" % lab, lambda h=h: h.write_direct(np.asarray(h[:]) * 0 - 1) if h.dtype.kind == "f" and h.size
+                else setattr(h, "expansion_origin", 1.5))
     if kind != "property":
         add("definition", setter(ent, "definition", val))
         add("type", setter(ent, "type", val))
@@ -1576,6 +1710,9 @@ class Scenario:
             except Exception:       # (the block lacks what a new tag / multi-tag would link: the chosen source is kept)
                 pass
         parent = self.pick_parent(kind, df, src_owner)
+        if kind in BLOCK_CONT and sf == df and src_owner is not None and rng.random() < 0.4:
+            parent = src_owner          # beside the source, in its own block: the block holds what the source links
+            self.count("into-the-source's-block")
         if parent is None:
             return
         if not isinstance(parent, nixio.File) and sf == df and addr(h5obj(parent)) in set(h5dump(h5obj(src))[1]):
@@ -1619,6 +1756,40 @@ class Scenario:
         self.copy_trial(kind, sf, df, src, src_owner, parent, name, keep, children, hsrc, hparent)
         if not chain and self.last is not None and rng.random() < 0.5:
             self.trial(chain=True)
+
+    def link_sweep(self):
+        """the class generated directly, not left to chance: every kind of entity that carries links (tag, multi-tag, an
+        array with sources / metadata), copied with both id policies (a) beside itself into its own block - which holds
+        the entities it links, by the same name and id -, (b) into another block of the file that holds members of the
+        same names (an id-keeping twin of the block, if there is one), (c) into a block of the other file"""
+        rng = self.rng
+        sf = rng.choice([0, 1])
+        f = self.files[sf]
+        blocks = list(f.blocks)
+        if not blocks:
+            return
+        blk = blocks[0]
+        names = {a.name for a in blk.data_arrays}
+        twins = [b for b in blocks[1:] if names & {a.name for a in b.data_arrays}]
+        others = list(self.files[1 - sf].blocks)
+        for kind in ("tag", "multi_tag", "data_array"):
+            pool = [e for e in getattr(blk, BLOCK_CONT[kind]) if link_handles(kind, e)]
+            if not pool:
+                continue
+            src = rng.choice(pool)
+            dests = [(sf, blk)] + ([(sf, rng.choice(twins))] if twins else []) + \
+                    ([(1 - sf, rng.choice(others))] if others else [])
+            for df, parent in dests:
+                for keep in (True, False):
+                    self.last = None
+                    self.handles = {"source_handle": "plain (owning container, by iteration)", "dest_handle": "plain"}
+                    name = "sweep%d-%s" % (len(self.log), kind)
+                    if not self.still_there(kind, src, blk, sf):
+                        break
+                    self.count("link-sweep")
+                    self.copy_trial(kind, sf, df, src, blk, parent, name, keep, True)
+                    if len(distinct_new(self.fails)) >= 3:
+                        return
 
     def still_there(self, kind, ent, owner, fi):
         """the handle still stands for a live entity of its container (it may have been deleted since)"""
@@ -1737,6 +1908,22 @@ class Scenario:
         foreign = [a for a in addrs if a[0] != dstf._h5file.filename]
         if foreign:
             self.fail("the copy reaches objects of another file", len(foreign), 0, "internal-links")
+        # ... and so are the entities the API hands out through the links of the copy (references, positions, extents,
+        # feature data, group members, sources, metadata, section link): each is the new object the HDF5 link leads to
+        own = set(addrs)
+        for lab, h in link_handles(kind, cp):
+            a = addr(h5obj(h))
+            if a in pre_addrs:
+                self.fail("a link of the copy hands out an object that existed before the copy (an original): the "
+                          "links among the copied entities must point to the copied ones",
+                          {"link": lab.replace("e.", "copy.", 1), "yields": [type(h).__name__, h.name, h.id],
+                           "object": "existed before the copy"}, "one of the new objects of the copy", "internal-links")
+                break
+            if a not in own:
+                self.fail("a link of the copy hands out an object that is not part of the copy",
+                          {"link": lab.replace("e.", "copy.", 1), "yields": [type(h).__name__, h.name, h.id]},
+                          "one of the new objects of the copy", "internal-links")
+                break
         # ---- completeness ----------------------------------------------------------------------------
         if children:
             a_, b_ = strip_root(src_state["h5"], True), strip_root(cp_state["h5"], True)
@@ -1843,7 +2030,11 @@ class Scenario:
             dels = [m for m in muts if m[2] is not None]
             before = side_state(kind, oent)
             applied = []
-            for desc, fn, _ in rng.sample(plain, min(len(plain), rng.choice([2, 3, 4]))):
+            via = [m for m in plain if m[0].startswith("through ")]
+            chosen = rng.sample(plain, min(len(plain), rng.choice([2, 3, 4])))
+            if via and not any(m[0].startswith("through ") for m in chosen):
+                chosen.append(rng.choice(via))
+            for desc, fn, _ in chosen:
                 try:
                     fn()
                     applied.append(desc)
@@ -1853,7 +2044,7 @@ class Scenario:
             self.evals += 1
             after = side_state(kind, oent)
             if after != before:
-                d = first_diff(before["h5"], after["h5"]) or W.diff(before["api"], after["api"], 3)
+                d = state_diff(before, after)
                 self.fail("a change of the %s is visible in the %s" % (mname, oname), d, "unchanged", "independence")
                 return
             if dels and rng.random() < 0.6:
@@ -1872,7 +2063,7 @@ class Scenario:
                            ("/shared-id" if shared else ""))
                 after = side_state(kind, oent)
                 if after != before:
-                    d = first_diff(before["h5"], after["h5"]) or W.diff(before["api"], after["api"], 3)
+                    d = state_diff(before, after)
                     self.fail("a deletion in the %s is visible in the %s%s" % (
                         mname, oname, " (the deleted entity's id is carried by another object of the file)"
                         if shared else ""), d, "unchanged", FIXED_DELETE if shared else "independence")
@@ -1916,7 +2107,7 @@ class Scenario:
                           type(e).__name__, "unchanged", site)
                 return
             if after != before:
-                d = first_diff(before["h5"], after["h5"]) or W.diff(before["api"], after["api"], 3)
+                d = state_diff(before, after)
                 self.fail("deleting the %s changed the %s" % (mname, oname), d, "unchanged", site)
 
     @staticmethod
@@ -2219,6 +2410,8 @@ def oracle(ctx, broken, hints):
         rng = random.Random("C20-oracle/%d/%d" % (ctx.seed, k))
         sc = Scenario(ctx, rng, str(k))
         try:
+            if k < 2:
+                sc.link_sweep()
             for j in range(trials):
                 sc.trial(force_kind=kinds[j % len(kinds)] if j < len(kinds) else None)
                 if len(distinct_new(sc.fails)) >= 3 or (j >= 7 and time.time() > t_end):
